@@ -12,7 +12,8 @@
 //! replay input (one line per class string, printed by spec/Gen_Dsv.tla):
 //!   {"cls":[0..3 ..],"ms":[..],"ns":[..],"rows":[[[s,e]..]..]}
 //! every string is placed across the 64-byte chunk boundary at every cut, after an other-byte
-//! prefix and after a prefix holding a closed quoted region, for several configurations; each
+//! prefix, after a prefix holding a closed quoted region, and across the second boundary after a
+//! quoted region that spans the first one, for several configurations; each
 //! engine's marker/newline offsets must be  offset + ms / offset + ns.
 #[path = "dsv_common/mod.rs"]
 mod common;
@@ -299,8 +300,10 @@ fn replay(args: &Args) {
             let o = others[(ci + l) % others.len()];
             // every cut: the string occupies [64 - j, 64 - j + l) for j in 0..=l
             for j in 0..=l {
-                for variant in 0..2 {
-                    let off = 64 - j;
+                for variant in 0..3 {
+                    // variant 2: across the SECOND boundary, after a quoted region that is opened in
+                    // chunk 0 and closed in chunk 1 (carry 1 into a chunk holding one quote)
+                    let off = if variant == 2 { 128 - j } else { 64 - j };
                     let mut text = vec![o; off];
                     if variant == 1 {
                         if off < 4 + j {
@@ -311,6 +314,13 @@ fn replay(args: &Args) {
                         text[1] = c.d;
                         text[2] = c.n;
                         text[3] = c.q;
+                    }
+                    if variant == 2 {
+                        text[10 + ci] = c.q;
+                        text[11 + ci] = c.d;
+                        text[63] = c.n;
+                        text[64] = c.d;
+                        text[70 + ci] = c.q;
                     }
                     for &k in &cls {
                         text.push(c.class_byte(k, o));
